@@ -140,6 +140,12 @@ func NewInjectorParamWithImports(ts []types.Type, isArg bool, pkg string, import
 func collectImportsFromType(t types.Type, pkg string, imports map[string]*Import, referencedImports map[string]*Import, varPool *VarPool) {
 	switch typ := t.(type) {
 	case *types.Named:
+		// Type arguments of instantiated generic types are spelled out in the generated code
+		if typeArgs := typ.TypeArgs(); typeArgs != nil {
+			for i := 0; i < typeArgs.Len(); i++ {
+				collectImportsFromType(typeArgs.At(i), pkg, imports, referencedImports, varPool)
+			}
+		}
 		if objPkg := typ.Obj().Pkg(); objPkg != nil && objPkg.Path() != pkg {
 			pkgPath := objPkg.Path()
 			if imp, exists := imports[pkgPath]; exists {
